@@ -414,6 +414,11 @@ def deep_events(stmts, env=None, loops=()):
             for x in walk_expr(lp.target):
                 if x[0] == 'var':
                     e2[x[1]] = x
+            it = subst_expr(lp.iter, e)
+            # `for i, v in enumerate(X)`: v is X[i] (as the iteration starts)
+            if it[0] == 'call' and it[1] == ('var', 'enumerate') and len(it[2]) == 1 and lp.target[0] == 'tuple' and len(lp.target[1]) == 2 \
+                    and lp.target[1][0][0] == 'var' and lp.target[1][1][0] == 'var':
+                e2[lp.target[1][1][1]] = ('idx', it[2][0], lp.target[1][0])
         body = lp.body
         sub_ = deep_events(body, e2, loops + (lp,))
         pre = tuple(ex.path)
